@@ -139,13 +139,17 @@ $(B)/libppl_c.a: $(C20_OBJS)
 	ar rcs $@ $(C20_OBJS)
 c20-lib: $(B)/libppl_c.a
 
-$(G)/obj/c20_cint.o: $(C20_HD)c20_cint.cc $(B)/cfg/ppl-config.h | $(C20_GEN)
+# The harness is one source file compiled in 9 parts (-DC20_PART=0..8: main part + one part per
+# domain program) so that the heavy template instantiations compile in parallel.
+C20_PARTS := 0 1 2 3 4 5 6 7 8
+C20_HOBJS := $(patsubst %,$(G)/obj/c20_cint.p%.o,$(C20_PARTS))
+$(G)/obj/c20_cint.p%.o: $(C20_HD)c20_cint.cc $(B)/cfg/ppl-config.h | $(C20_GEN)
 	@mkdir -p $(G)/obj
-	$(CXX) $(FLAGS) -I$(G) $(HINC) -MMD -MP -c $< -o $@
+	$(CXX) $(FLAGS) -DC20_PART=$* -I$(G) $(HINC) -MMD -MP -c $< -o $@
 
-$(B)/bin/c20_cint: $(G)/obj/c20_cint.o $(B)/libppl_c.a $(B)/libppl.a
+$(B)/bin/c20_cint: $(C20_HOBJS) $(B)/libppl_c.a $(B)/libppl.a
 	@mkdir -p $(B)/bin
-	$(CXX) $(FLAGS) $(LDX) $< $(B)/libppl_c.a $(B)/libppl.a $(HLIBS) -o $@
+	$(CXX) $(FLAGS) $(LDX) $(C20_HOBJS) $(B)/libppl_c.a $(B)/libppl.a $(HLIBS) -o $@
 
 c20: $(B)/bin/c20_cint
 
